@@ -21,8 +21,8 @@
     * `reminder`   — reminders only from the timer, only in a hard problem state that is neither
                      suppressed nor flapping, never while the initial Problem is still held back (on the
                      checkable after a suppression, or on the notification object after a closed period), at least `interval` after the last (unforced) Problem of the
-                     same notification object, and with `interval ≤ 0` none after a Problem until another
-                     notification type or a Recovery is processed.  The last two are stated for stretches
+                     same notification object, and with `interval ≤ 0` none after a Problem until a Recovery
+                     is processed (F-C03c: the code re-arms the reminder on every other type but Custom).  The last two are stated for stretches
                      without a hard state change (`last_hard_state_change` unchanged) and with a clock
                      that does not run backwards (DESIGN.md §3 Q-C03).
 -/
@@ -165,7 +165,12 @@ def remSpacingOk (c : Cfg) (e : Env) (g : RemSt) : Bool :=
 def remInterval0Ok (c : Cfg) (g : RemSt) : Bool :=
   !(decide (c.interval ≤ 0) && g.quiet && g.lastProb.isSome)
 
-def reminderEv (c : Cfg) (k : OpKind) (e : Env) (g : RemSt) (ev : Event) : Option Clause × RemSt :=
+/-- `strict = true` is the specification: with `interval ≤ 0` the object stays `quiet` from the (unforced) Problem until
+    a Recovery is processed — "none once a Problem has been sent for the incident".  `strict = false` is the weaker
+    reading the code implements (any other notification type but Custom re-arms the reminder: notification.cpp:394-397);
+    it is not part of the specification — it is proved of the model without hypothesis, and the driver runs it beside
+    the strict one to tell the known finding F-C03c from any other violation of the clause. -/
+def reminderEv (strict : Bool) (c : Cfg) (k : OpKind) (e : Env) (g : RemSt) (ev : Event) : Option Clause × RemSt :=
   (if !ev.reminder then none
    else if !(k == .tick && ev.ty == .problem) then some .reminderOnlyFromTimer
    else if !remCondOk e then some .reminderCond
@@ -176,7 +181,13 @@ def reminderEv (c : Cfg) (k : OpKind) (e : Env) (g : RemSt) (ev : Event) : Optio
    if !ev.passed then { g with quiet := false }
    else if ev.ty == .problem then (if ev.force then g else { lastProb := some (e.now, e.lhsc), quiet := true })
    else if ev.ty == .custom then g
-   else { g with quiet := false })
+   else if ev.ty == .recovery || !strict then { g with quiet := false }
+   else g)
+
+/-- With `interval ≤ 0`: a notification of a type other than Problem, Custom and Recovery that passes the
+    notification-level filters — the code re-arms the reminder here (F-C03c). -/
+def rearms (c : Cfg) (ev : Event) : Bool :=
+  decide (c.interval ≤ 0) && ev.passed && !(ev.ty == .problem || ev.ty == .custom || ev.ty == .recovery)
 
 /-- A reminder never overtakes the initial Problem: not while the checkable still holds one back (clause in
     `reminderEv`: the pending bit of the checkable is an environment fact), and not while the notification
@@ -203,9 +214,11 @@ def runTrace {G : Type} (step : G → Obs → Option Clause × G) : G → List O
     were switched off (globally or for the checkable) and the request was not forced: `SendNotifications` drops the
     request, nobody is told, and the incident is over all the same.  Users who were sent a Problem before this point
     were not "sent a Problem for the current incident" when the next incident's Acknowledgement / Recovery goes out
-    (F-C03b: the code keeps notified_problem_users across the dropped request). -/
+    (F-C03b: the code keeps notified_problem_users across the dropped request).  A paused notification object is
+    exempt, as it is for a request that is not dropped: its bookkeeping is the business of the node that has the
+    authority (cluster sync, not modelled). -/
 def recoveryDropped (o : Obs) : Bool :=
-  o.kind == .send && o.req == some .recovery && !o.env.force && !(o.env.globalEnabled && o.env.ckEnabled)
+  o.kind == .send && o.req == some .recovery && !o.env.force && !(o.env.globalEnabled && o.env.ckEnabled) && !o.env.paused
 
 def deliveryObs (c : Cfg) (g : Unit) (o : Obs) : Option Clause × Unit := evFold (deliveryEv c o.kind o.env) g o.events
 def recipientsObs (ps : List Nat) (o : Obs) : Option Clause × List Nat :=
@@ -218,13 +231,16 @@ def recipientsObsLoose (ps : List Nat) (o : Obs) : Option Clause × List Nat := 
     i.e. the clause demands less — the code happens to remember, and withholds the next incident's Problem). -/
 def noDupObs (ls : Nat → Option Nat) (o : Obs) : Option Clause × (Nat → Option Nat) :=
   evFold (noDupEv o.env) (if recoveryDropped o then fun _ => none else ls) o.events
-def reminderObs (c : Cfg) (g : RemSt) (o : Obs) : Option Clause × RemSt :=
-  evFold (reminderEv c o.kind o.env) (remValidate o.env g) o.events
+def reminderObsOf (strict : Bool) (c : Cfg) (g : RemSt) (o : Obs) : Option Clause × RemSt :=
+  evFold (reminderEv strict c o.kind o.env) (remValidate o.env g) o.events
+def reminderObs (c : Cfg) (g : RemSt) (o : Obs) : Option Clause × RemSt := reminderObsOf true c g o
+def reminderObsLoose (c : Cfg) (g : RemSt) (o : Obs) : Option Clause × RemSt := reminderObsOf false c g o
 
 def deliveryTrace (c : Cfg) (tr : List Obs) : Option Clause := runTrace (deliveryObs c) () tr
 def recipientsTrace (tr : List Obs) : Option Clause := runTrace recipientsObs [] tr
 def noDupTrace (tr : List Obs) : Option Clause := runTrace noDupObs (fun _ => none) tr
 def reminderTrace (c : Cfg) (tr : List Obs) : Option Clause := runTrace (reminderObs c) {} tr
+def reminderTraceLoose (c : Cfg) (tr : List Obs) : Option Clause := runTrace (reminderObsLoose c) {} tr
 
 /-- The whole property on a trace: the first violated clause of the four checkers, if any. -/
 def specTrace (c : Cfg) (tr : List Obs) : Option Clause :=
